@@ -109,7 +109,7 @@ def specLoop (c : SpecCfg) : (rem : Nat) â†’ (k : Nat) â†’ List (Option Value) â
     let act := c.active k
     let vis := visibleSpec c.names vals
     (specCapsAll c k vis act).andThen fun caps =>
-    (if c.kind.isSpawn && decide (act.length > 1) then specChainsFork c k vals vis (act.zip caps)
+    (if c.kind.threads && decide (act.length > 1) then specChainsFork c k vals vis (act.zip caps)
      else specChainsSeq c k vals vis (act.zip caps)).andThen fun news =>
     let vals' := updVals vals act news
     match rem with
